@@ -19,6 +19,7 @@ func Run(ctx *vrun.Ctx, prop string) error {
 		models = []ModelCfg{
 			{Name: "deliver3", N: 3, Works: "{1,2}", Flaws: allFlaws, Graph: true},
 			{Name: "manual3", N: 3, Works: "{1,2}", Flaws: `{"connect"}`, Manual: 2, Graph: true, MaxPaths: 2500},
+			{Name: "restart3", N: 3, Works: "{1}", Flaws: `{"connect"}`, Manual: 2, Restart: 1, Graph: true, MaxPaths: 2000},
 			{Name: "deliver4", N: 4, Works: "{1}", Flaws: `{"connect"}`, Graph: true, MaxPaths: 1500},
 			{Name: "hdrmanual3", N: 3, Works: "{1}", Flaws: `{}`, Headers: true, Manual: 1, Graph: true, MaxPaths: 2000},
 			{Name: "manual3x3", N: 3, Works: "{1}", Flaws: `{}`, Manual: 3, Graph: true, MaxPaths: 2000},
@@ -32,6 +33,8 @@ func Run(ctx *vrun.Ctx, prop string) error {
 				{Name: "deliver5", N: 5, Works: "{1,2}", Flaws: `{"connect"}`},
 				{Name: "hdrmanual3", N: 3, Works: "{1,2}", Flaws: `{"connect"}`, Headers: true, Manual: 2, Graph: true, MaxPaths: 100000},
 				{Name: "manual4x3", N: 4, Works: "{1}", Flaws: `{}`, Manual: 3, Graph: true, MaxPaths: 100000},
+				{Name: "restart3", N: 3, Works: "{1,2}", Flaws: `{"connect"}`, Manual: 2, Restart: 2, Graph: true, MaxPaths: 100000},
+				{Name: "restart4", N: 4, Works: "{1}", Flaws: `{"connect"}`, Manual: 1, Restart: 1, Graph: true, MaxPaths: 60000},
 			}
 		}
 	case "C01":
@@ -56,6 +59,7 @@ func Run(ctx *vrun.Ctx, prop string) error {
 			{Name: "flush3", N: 3, Works: "{1,2}", Flaws: `{"connect"}`, Flush: true, Graph: true, MaxPaths: 2500},
 			{Name: "deliver4", N: 4, Works: "{1}", Flaws: `{}`, Graph: true, MaxPaths: 1500},
 			{Name: "manual3", N: 3, Works: "{1}", Flaws: `{}`, Manual: 2, Flush: true, Graph: true, MaxPaths: 1500},
+			{Name: "restart3", N: 3, Works: "{1}", Flaws: `{}`, Flush: true, Restart: 2, Graph: true, MaxPaths: 1500},
 		}
 		if ctx.Thorough {
 			models = []ModelCfg{
@@ -63,6 +67,8 @@ func Run(ctx *vrun.Ctx, prop string) error {
 				{Name: "deliver4", N: 4, Works: "{1,2}", Flaws: `{"connect"}`, Graph: true, MaxPaths: 150000},
 				{Name: "manual3", N: 3, Works: "{1,2}", Flaws: `{}`, Manual: 2, Flush: true, Graph: true, MaxPaths: 100000},
 				{Name: "flush4", N: 4, Works: "{1}", Flaws: `{}`, Flush: true, Graph: true, MaxPaths: 100000},
+				{Name: "restart3", N: 3, Works: "{1,2}", Flaws: `{"connect"}`, Flush: true, Manual: 1, Restart: 2, Graph: true, MaxPaths: 60000},
+				{Name: "restart4", N: 4, Works: "{1}", Flaws: `{}`, Restart: 2, Graph: true, MaxPaths: 40000},
 			}
 		}
 	case "C04":
